@@ -114,9 +114,15 @@ def simpleTypes : List Bytes :=
 /-- `for _, typeName := range simpleTypes { if id.IsIdent(typeName) {…} }`: the first table entry the token reads as -/
 def simpleName? (t : Token) : Option Bytes := simpleTypes.find? (fun n => t.isIdent n)
 
-/-- `lookaheadSimpleType` -/
+/-- `p.lookaheadToken().Kind` (as a class): the token AFTER the current one; the lexer is cloned and restored, so the
+state does not change -/
+def lookaheadKind (ts : PState) : TK := cur ts.tail
+
+/-- `lookaheadSimpleType`: the current identifier reads as a simple type name AND is not followed by `.` (a scalar type
+name followed by `.` is the first component of a named type: `date.T`) -/
 def lookaheadSimpleType (ts : PState) : Bool :=
-  if cur ts ≠ .ident then false else (simpleName? (hd ts)).isSome
+  if cur ts ≠ .ident then false
+  else if (simpleName? (hd ts)).isSome then lookaheadKind ts != .dot else false
 
 /-- `lookaheadType` -/
 def lookaheadType (ts : PState) : Bool :=
